@@ -360,6 +360,21 @@ def mixed_recipe(rng):
     return dict(gen='G-trace', sub='mixed', tps=tps, start=0, nticks=nticks, pipes=pipes)
 
 
+def burst_recipe(rng):
+    """hundreds of pipelines with one and the same arrival time (an arrival event of a large batch), plus a few before
+    and after: every one of them is delivered, once, in the same tick"""
+    tps = rng.choice(TPS_ALL)
+    k = rng.randint(0, 30)
+    v = grid_decimal(k, tps) + rng.choice([0, 0, F(1, 10 ** 9)])
+    n = rng.choice([129, 150, 200, 257, 300])
+    before = sorted(grid_decimal(rng.randint(0, k), tps) for _ in range(rng.randint(0, 3))) if k else []
+    after = sorted(grid_decimal(rng.randint(k + 1, k + 20), tps) for _ in range(rng.randint(0, 4)))
+    vals = [x for x in before if x < v] + [v] * n + [x for x in after if x > v]
+    last = math.ceil(vals[-1] * tps)
+    pipes = [[spell(rng, x) if x != v else dec_str(v), 1] for x in vals]
+    return dict(gen='G-trace', sub='burst', tps=tps, start=0, nticks=last + 2, pipes=pipes)
+
+
 def gentrace_recipe(rng):
     tps = rng.choice([1, 2, 10, 100, 1000, 3, 7, 16, 30, 60, 128, 333, 4096, 10000, 100000])
     nt = rng.choice([20, 60, 150, 300])
@@ -403,6 +418,8 @@ def run(ctx):
         recs.append(mixed_recipe(ctx.case_rng('G-trace-mixed', i)))
     for i in range(ctx.budget(20, 1500)):
         recs.append(far_recipe(ctx.case_rng('G-trace-far', i)))
+    for i in range(ctx.budget(8, 200)):
+        recs.append(burst_recipe(ctx.case_rng('G-trace-burst', i)))
     for rec in recs:
         c, h, extra = trace_case(rec)
         cases.append(c)
